@@ -72,6 +72,9 @@ def oracle(recs):
         if k == 'after' and not (v[2] == 1 and v[3] == 1 and v[4] == v[0] and v[5] >= v[1] and v[6] == 1):
             bad.append(('after the limit panic the archetype is not usable as before (destroy ok %d, create ok %d, len %d -> %d, capacity %d -> %d, stale handle rejected %d)'
                         % (v[2], v[3], v[0], v[4], v[1], v[5], v[6]), (k, v)))
+        if k == 'sample' and v[1:] != [1, 1, 1, 1, 1, 1]:
+            bad.append(('the handle of the entity created as number %d no longer reaches its own entity through every path (typed find, dynamic find, raw round trip, direct find, try_from, contains) = %s'
+                        % (v[0], v[1:]), (k, v)))
         if k == 'wcap' and v[0] <= LIMIT and (v[1] != 0 or v[2] < v[0]):
             bad.append(('with_capacity(%d) panicked or gave capacity %d' % (v[0], v[2]), (k, v)))
         if k == 'wcap' and v[0] > LIMIT and v[1] != 1:
